@@ -16,6 +16,9 @@ func (Prop) Configs(tier string) []string {
 	return []string{"c-race", "c-race-purego", "c-race-nopclmul", "c-race-noaes", "c-race-noavx2", "c-race-aesni1"}
 }
 
+var lightScenario = map[string]bool{"S1-sm2-key": true, "S2-sm2-key-d=n-1": true, "S3-ecdh-key": true, "S9-sm3-constructors": true, "S10-sm2-public-key": true,
+	"S15-sm9-generated-key-two-unwraps": true, "S6a-sm2-singletons": true}
+
 // tierDependent lists the scenarios whose shared objects are implemented differently per CPU dispatch tier
 // (SM4 block / AEAD / mode objects, SM3 KDF lanes); only these are repeated on the non-default tiers.
 var tierDependent = map[string]bool{"S8-sm4-shared-block-aead": true, "S12-sm4-shared-block-modes": true, "S9-sm3-constructors": true, "S11-sm9-encrypt-user-key": true}
@@ -25,7 +28,7 @@ func (Prop) Rule() string {
 	return "E5: stateless DFS over thread schedules of 2-3 goroutines on a freshly created shared object, real library code, one thread running at a time under a " +
 		"cooperative scheduler whose hand-offs are invisible to the Go race detector (so every explored schedule, including the serial ones, is checked by TSan for " +
 		"unsynchronised conflicting accesses); scheduling points = every sync.Once/Mutex/RWMutex operation of the library (import \"sync\" redirected by build overlay to a shim " +
-		"reproducing exactly the real happens-before edges) and, in 'yields' mode, the entry of every function of the orchestration-level files. Two modes per scenario: " +
+		"reproducing exactly the real happens-before edges) and, in 'yields' mode, the entry of every function of the orchestration-level files plus entry and exit of 52 structural functions of the arithmetic cores (bn256 G1/G2 methods, Pair, miller, pairing, MakeAffine ..., sm2ec point conversions). Two modes per scenario: " +
 		"sync points only with preemption bound 3 (quick) / 6 (thorough), and sync points + function-entry yields with preemption bound 1 (quick) / 2 (thorough). Oracle per execution: no race " +
 		"report, no panic, no deadlock, every thread's result equals the sequential reference run. evaluations = schedules executed; distinct_nontrivial = (scenario, mode, bound) " +
 		"explorations completed; states = schedules, transitions = scheduling points executed."
@@ -59,6 +62,11 @@ func (Prop) Run(c *engine.Ctx) {
 			sb, yb = 2, 0
 			if !quick {
 				sb, yb = 4, 1
+			}
+			// in the pure-Go race build the light scenarios (no pairing, or one per thread) get interleavings at the
+			// function-entry/exit points too: that is where the race detector sees stores that are assembly elsewhere
+			if c.Config == "c-race-purego" && lightScenario[sc.name] {
+				yb = 1
 			}
 		}
 		if quick && strings.Contains(sc.name, "sm9") && sb > 2 {
